@@ -200,6 +200,7 @@ struct Conn {
 	frames: Vec<Value>,
 	alive: bool,       // the harness still holds the client transport
 	closed_seen: bool, // the client saw the server end the connection
+	ended_by_server: bool,
 }
 
 struct H {
@@ -241,7 +242,12 @@ impl H {
 	fn on_event(&mut self, c: usize, ev: Ev) {
 		self.activity += 1;
 		match ev {
-			Ev::Closed => self.conns[c].closed_seen = true,
+			Ev::Closed => {
+				self.conns[c].closed_seen = true;
+				if self.conns[c].alive {
+					self.conns[c].ended_by_server = true;
+				}
+			}
 			Ev::Frame(s) => {
 				let v: Value = match serde_json::from_str(&s) {
 					Ok(v) => v,
@@ -326,36 +332,50 @@ impl H {
 		}
 	}
 
-	async fn idle_rounds(&mut self, quiet_needed: u32, max_rounds: u32) {
-		let mut quiet = 0;
-		let mut last = (self.activity, self.live_server_conns());
+	/// No barrier is possible (server stopped, or no open connection): let every ready task run (yielding polls the
+	/// I/O driver on a current-thread runtime), then require a quiet millisecond.
+	async fn idle_rounds(&mut self, max_rounds: u32) {
 		for _ in 0..max_rounds {
+			let mut last = (self.activity, self.live_server_conns());
+			let mut quiet = 0;
+			let mut spins = 0;
+			while quiet < 40 && spins < 4000 {
+				tokio::task::yield_now().await;
+				self.drain();
+				spins += 1;
+				let now = (self.activity, self.live_server_conns());
+				if now == last {
+					quiet += 1;
+				} else {
+					quiet = 0;
+					last = now;
+				}
+			}
 			sleep(Duration::from_millis(1)).await;
 			self.drain();
-			let now = (self.activity, self.live_server_conns());
-			if now == last {
-				quiet += 1;
-				if quiet >= quiet_needed {
-					return;
-				}
-			} else {
-				quiet = 0;
-				last = now;
+			if (self.activity, self.live_server_conns()) == last {
+				return;
 			}
 		}
 	}
 
 	async fn quiesce(&mut self) {
 		if self.stopped {
-			self.idle_rounds(5, 400).await;
+			self.idle_rounds(200).await;
 			return;
 		}
 		// wait for the server to have released every connection the harness dropped
 		let expected = self.open_conns().len();
 		if self.live_server_conns().is_some() {
 			let deadline = Instant::now() + Duration::from_secs(3);
+			let mut spins = 0u32;
 			while self.live_server_conns() != Some(expected) && Instant::now() < deadline {
-				sleep(Duration::from_micros(300)).await;
+				spins += 1;
+				if spins % 200 == 0 {
+					sleep(Duration::from_millis(1)).await;
+				} else {
+					tokio::task::yield_now().await;
+				}
 				self.drain();
 			}
 			if self.live_server_conns() != Some(expected) {
@@ -374,18 +394,20 @@ impl H {
 			}
 		}
 		if self.open_conns().is_empty() {
-			self.idle_rounds(2, 100).await;
+			self.idle_rounds(100).await;
 		}
 	}
 
 	async fn handler_cmd(&mut self, s: usize, cmd: Cmd) -> String {
 		let Some(ctl) = self.subs.get_mut(s) else { return "na".into() };
+		// The library drops (cancels) the handler future once the subscribe call was answered with an error
+		// (reject / failed accept): its command channel is closed then, and the command is not applicable.
 		if ctl.cmd.send(cmd).is_err() {
-			return "gone".into();
+			return "na".into();
 		}
 		match timeout(CMD_WAIT, ctl.res.recv()).await {
 			Ok(Some(r)) => r,
-			Ok(None) => "gone".into(),
+			Ok(None) => "na".into(),
 			Err(_) => "timeout".into(),
 		}
 	}
@@ -397,7 +419,7 @@ impl H {
 				if !self.send_raw(c, format!(r#"{{"jsonrpc":"2.0","id":{},"method":"sub"}}"#, req)).await {
 					return "na".into();
 				}
-				let wait = if self.stopped { Duration::from_millis(40) } else { REQ_WAIT };
+				let wait = if self.stopped { Duration::from_millis(15) } else { REQ_WAIT };
 				self.pump_until(wait, |h| h.subs.len() > before || h.responses.contains_key(&(c, req))).await;
 				if self.subs.len() > before {
 					format!("h{}", before)
@@ -415,7 +437,7 @@ impl H {
 				if !self.send_raw(c, format!(r#"{{"jsonrpc":"2.0","id":{},"method":"unsub","params":[{}]}}"#, req, target)).await {
 					return "na".into();
 				}
-				let wait = if self.stopped { Duration::from_millis(40) } else { REQ_WAIT };
+				let wait = if self.stopped { Duration::from_millis(15) } else { REQ_WAIT };
 				self.pump_until(wait, |h| h.responses.contains_key(&(c, req))).await;
 				match self.responses.get(&(c, req)).and_then(|v| v.get("result")).and_then(|r| r.as_bool()) {
 					Some(true) => "t".into(),
@@ -439,16 +461,14 @@ impl H {
 			Step::Ret(s, kind, x) => self.handler_cmd(s, Cmd::Ret(kind, x)).await,
 			Step::ConnDrop(c) => {
 				let Some(conn) = self.conns.get_mut(c) else { return "na".into() };
-				if !conn.alive {
-					return "na".into();
-				}
+				let was_open = conn.alive && !conn.closed_seen;
 				conn.alive = false;
 				conn.sender = None;
 				if let Some(r) = conn.reader.take() {
 					r.abort();
 					let _ = timeout(REQ_WAIT, r).await;
 				}
-				"ok".into()
+				if was_open { "ok".into() } else { "na".into() }
 			}
 			Step::Stop => {
 				if self.stopped {
@@ -587,7 +607,7 @@ async fn run_case(cap: u32, nconns: usize, steps: Vec<Step>) -> String {
 				}
 			}
 		});
-		h.conns.push(Conn { sender: Some(tx), reader: Some(reader), frames: Vec::new(), alive: true, closed_seen: false });
+		h.conns.push(Conn { sender: Some(tx), reader: Some(reader), frames: Vec::new(), alive: true, closed_seen: false, ended_by_server: false });
 		// one round-trip fixes the connection id order (and captures the connection guard)
 		h.barrier_round().await;
 	}
@@ -602,7 +622,7 @@ async fn run_case(cap: u32, nconns: usize, steps: Vec<Step>) -> String {
 	h.drain();
 	let conns: Vec<String> =
 		h.conns.iter().map(|c| format!("[{}]", c.frames.iter().map(canon).collect::<Vec<_>>().join(","))).collect();
-	let ends: Vec<&str> = h.conns.iter().map(|c| if c.alive && c.closed_seen { "true" } else { "false" }).collect();
+	let ends: Vec<&str> = h.conns.iter().map(|c| if c.ended_by_server { "true" } else { "false" }).collect();
 	let res: Vec<String> = results.iter().map(|r| serde_json::to_string(r).unwrap()).collect();
 	let mut out = format!(r#"{{"c":[{}],"end":[{}],"r":[{}]"#, conns.join(","), ends.join(","), res.join(","));
 	if !h.problems.is_empty() {
